@@ -250,7 +250,20 @@ impl<B: Backend> Fixture<B> {
                 let pos = if r.mmcs_bit && we == 2 * re { l + re } else { l };
                 v.push((l, pos, "inherited-input[merkle]"));
             } else if r.new_start {
-                v.push((l, l, "unfed-input[sponge-start]"));
+                // three designs: nothing ties an un-fed rate limb of a chain start to zero but a
+                // dedicated assertion; the capacity assertion of the D=1 table is a transition
+                // constraint, which the first table row has no predecessor for
+                v.push((
+                    l,
+                    l,
+                    if l < re {
+                        "unfed-input[sponge-start,rate]"
+                    } else if row == 0 {
+                        "unfed-input[sponge-start,capacity@row0]"
+                    } else {
+                        "unfed-input[sponge-start,capacity]"
+                    },
+                ));
             } else {
                 v.push((l, l, "inherited-input[sponge]"));
             }
